@@ -16,14 +16,14 @@
 //	               publish bytes through the same broker connection the publisher transport uses
 //	           {"k":"wait", "starts": n, "ends": m, "ms": t}   until n handler starts / m ends were seen
 //	           {"k":"release", "cid"}                         let a held handler return
-//	           {"k":"unsub"}                                  FSubscription.Unsubscribe()
+//	           {"k":"unsub", "ms": t}                         FSubscription.Unsubscribe() on its own goroutine; waits up to t for it
 //	           {"k":"flush"}                                  round trip to the broker on the publishing connection
 //	    response per case: {"code", "topic", "events": [..], "tap": [hex..]}
 //	      events (one global order, recorded under one mutex):
 //	        {"e":"pub","i":step index,"code":..,"hdrs":..}  logged BEFORE the publish call starts ("hdrs" filled in after)
 //	        {"e":"start","cid","hdrs","val"}   handler entered (headers and dumped payload it was given)
 //	        {"e":"end","cid"}                  handler about to return
-//	        {"e":"unsub_call"} {"e":"unsub_ret","code"}
+//	        {"e":"unsub_call"} {"e":"unsub_ret","code"}  {"e":"unsub_pending"} (step gave up waiting) {"e":"unsub_hang"} (never returned)
 //	        {"e":"wait_timeout","i"}           a wait step expired
 //	        {"e":"final","starts":n}           all steps done, quiescence wait over
 //	      tap: every frame a plain broker subscription on the same destination received, in order.
@@ -43,6 +43,7 @@ import (
 	frugal "github.com/Workiva/frugal/lib/go"
 	"github.com/apache/thrift/lib/go/thrift"
 	"github.com/go-stomp/stomp"
+	"github.com/go-stomp/stomp/frame"
 	stompserver "github.com/go-stomp/stomp/server"
 	"github.com/nats-io/nats-server/v2/server"
 	"github.com/nats-io/nats.go"
@@ -251,8 +252,84 @@ func (b *natsBroker) close() {
 }
 
 type stompBroker struct {
-	l                net.Listener
+	l, pl            net.Listener
 	pubC, subC, tapC *stomp.Conn
+}
+
+// receiptProxy stands between the subscriber's connection and the embedded go-stomp server, which
+// (unlike the brokers frugal is used with) never answers the receipt header that the go-stomp client
+// puts on UNSUBSCRIBE, so that Subscription.Unsubscribe would wait forever.  The proxy produces that
+// RECEIPT at the position in the server's outgoing frame sequence where a broker would: it forwards
+// the UNSUBSCRIBE and then sends a fence message to a private topic it is subscribed to on the same
+// connection; the server handles the frames of a connection in order and writes topic messages in
+// order, so the fence comes back after every MESSAGE the server sent for the subscription, and is
+// turned into the RECEIPT.
+func receiptProxy(l net.Listener, upstream string) {
+	for {
+		c, err := l.Accept()
+		if err != nil {
+			return
+		}
+		u, err := net.Dial("tcp", upstream)
+		if err != nil {
+			c.Close()
+			continue
+		}
+		go func() { // client -> server
+			defer u.Close()
+			defer c.Close()
+			r, w := frame.NewReader(c), frame.NewWriter(u)
+			for {
+				f, err := r.Read()
+				if err != nil {
+					return
+				}
+				if f == nil {
+					if w.Write(nil) != nil {
+						return
+					}
+					continue
+				}
+				var after []*frame.Frame
+				switch f.Command {
+				case frame.CONNECT, frame.STOMP:
+					after = append(after, frame.New(frame.SUBSCRIBE, frame.Id, "c07fence", frame.Destination, "/topic/c07.fence", frame.Ack, "auto"))
+				case frame.UNSUBSCRIBE:
+					if rid, ok := f.Header.Contains(frame.Receipt); ok {
+						f.Header.Del(frame.Receipt)
+						ff := frame.New(frame.SEND, frame.Destination, "/topic/c07.fence", frame.ContentLength, fmt.Sprint(len(rid)))
+						ff.Body = []byte(rid)
+						after = append(after, ff)
+					}
+				}
+				if w.Write(f) != nil {
+					return
+				}
+				for _, g := range after {
+					if w.Write(g) != nil {
+						return
+					}
+				}
+			}
+		}()
+		go func() { // server -> client
+			defer u.Close()
+			defer c.Close()
+			r, w := frame.NewReader(u), frame.NewWriter(c)
+			for {
+				f, err := r.Read()
+				if err != nil {
+					return
+				}
+				if f != nil && f.Command == frame.MESSAGE && f.Header.Get(frame.Subscription) == "c07fence" {
+					f = frame.New(frame.RECEIPT, frame.ReceiptId, string(f.Body))
+				}
+				if w.Write(f) != nil {
+					return
+				}
+			}
+		}()
+	}
 }
 
 func startStomp() (broker, error) {
@@ -261,9 +338,19 @@ func startStomp() (broker, error) {
 		return nil, err
 	}
 	go stompserver.Serve(l)
-	b := &stompBroker{l: l}
+	pl, err := net.Listen("tcp", "127.0.0.1:0")
+	if err != nil {
+		l.Close()
+		return nil, err
+	}
+	go receiptProxy(pl, l.Addr().String())
+	b := &stompBroker{l: l, pl: pl}
 	for _, c := range []**stomp.Conn{&b.pubC, &b.subC, &b.tapC} {
-		nc, err := net.Dial("tcp", l.Addr().String())
+		addr := l.Addr().String()
+		if c == &b.subC {
+			addr = pl.Addr().String()
+		}
+		nc, err := net.Dial("tcp", addr)
 		if err != nil {
 			b.close()
 			return nil, err
@@ -325,6 +412,7 @@ func (b *stompBroker) close() {
 		}
 	}
 	b.l.Close()
+	b.pl.Close()
 }
 
 // ------------------------------------------------------------------------------------------
@@ -501,6 +589,7 @@ func runCase(reg *labdriver.Registry, c *caseReq) (resp labdriver.Resp) {
 		return labdriver.Resp{"code": 103, "err": "sync: " + err.Error()}
 	}
 	unsubscribed := false
+	var unsubDone chan struct{}
 
 	for i := range c.Script {
 		s := &c.Script[i]
@@ -548,16 +637,25 @@ func runCase(reg *labdriver.Registry, c *caseReq) (resp labdriver.Resp) {
 		case "release":
 			release(s.Cid)
 		case "unsub":
+			// Unsubscribe runs on its own goroutine: it may have to wait for a handler the script
+			// releases later.  The step waits up to ms for it; "unsub_ret" is logged whenever it returns.
 			rec.add(labdriver.Resp{"e": "unsub_call"})
-			done := make(chan error, 1)
-			go func() { done <- fsub.Unsubscribe() }()
-			select {
-			case err := <-done:
+			unsubDone = make(chan struct{})
+			go func(done chan struct{}) {
+				err := fsub.Unsubscribe()
 				rec.add(labdriver.Resp{"e": "unsub_ret", "code": labdriver.Classify(err)})
-				unsubscribed = true
-			case <-time.After(3 * time.Second):
-				rec.add(labdriver.Resp{"e": "unsub_hang"})
+				close(done)
+			}(unsubDone)
+			ms := s.Ms
+			if ms <= 0 {
+				ms = 3000
 			}
+			select {
+			case <-unsubDone:
+			case <-time.After(time.Duration(ms) * time.Millisecond):
+				rec.add(labdriver.Resp{"e": "unsub_pending"})
+			}
+			unsubscribed = true
 		default:
 			return labdriver.Resp{"code": 103, "err": "unknown step " + s.K}
 		}
@@ -571,6 +669,13 @@ func runCase(reg *labdriver.Registry, c *caseReq) (resp labdriver.Resp) {
 		release(cid)
 	}
 	full := rec.waitFor(2500*time.Millisecond, func() bool { return rec.starts >= c.Expect && rec.ends >= rec.starts })
+	if unsubDone != nil {
+		select {
+		case <-unsubDone:
+		case <-time.After(2500 * time.Millisecond):
+			rec.add(labdriver.Resp{"e": "unsub_hang"})
+		}
+	}
 	settle := c.SettleMs
 	if settle <= 0 {
 		settle = 60
